@@ -262,7 +262,7 @@ class Lifted:
 
     def header(self):
         lines = ['From Coq Require Import List NArith Bool.', 'From Replicat Require Import Model.Crypto Model.Objects.',
-                 'Import ListNotations.', 'Local Open Scope N_scope.']
+                 'Import ListNotations.', 'Local Open Scope N_scope.', 'Set Printing Depth 1000000.']
         if self.rr.encrypted:
             lines.append('Definition md : mode := Some {| k_shared := Bytes 1; k_salt := Bytes 2; k_mac := Bytes 3; '
                          'k_user := Kdf (Bytes 4) (Bytes 5) |}.')
